@@ -31,6 +31,7 @@ class Inst:
         self.mutating = bool(self.fin_act or self.drop_act)
         self.phase2 = kw.get("phase2", True)
         self.note = kw.get("note", "")
+        self.cont = kw.get("cont")                # fault instances: handles released in the continuation (None = all)
 
     # ---- static graph facts
     def succ(self, i, kinds=("s0", "s1", "hid")):
@@ -60,7 +61,7 @@ class Inst:
     def key(self):
         d = dict(n=self.n, e=sorted(self.edges), h=self.held, o=self.order, f=sorted(self.fin), s=sorted(self.stale.items()),
                  fa=sorted((k, v[0], v[1]) for k, v in self.fin_act.items()), da=sorted((k, v[0], v[1]) for k, v in self.drop_act.items()),
-                 w=sorted(self.weak), ft=self.fault, sc=self.script, p2=self.phase2)
+                 w=sorted(self.weak), ft=self.fault, sc=self.script, p2=self.phase2, ct=self.cont)
         return json.dumps(d, sort_keys=True)
 
     def name(self):
@@ -82,6 +83,8 @@ class Inst:
             x.append("weak=%s" % self.weak)
         if self.fault:
             x.append("fault=%s" % (self.fault,))
+        if self.cont is not None:
+            x.append("then_release=%s" % (self.cont,))
         return "n=%d edges[%s] held%s order[%s] script=%s %s" % (self.n, e, self.held, o, self.script, " ".join(x))
 
 
@@ -94,7 +97,7 @@ def render(inst):
     a = L.append
     weak = bool(inst.weak) or any(v[0].startswith("Upgrade") for v in list(inst.fin_act.values()) + list(inst.drop_act.values()))
     feats = [f for f in inst.feats if not weak or f in ("full", "finweak")]
-    uses_fin = bool(inst.fin or inst.fin_act)
+    uses_fin = bool(inst.fin or inst.fin_act) or (inst.fault is not None and inst.fault[0] == 2)
     if uses_fin:
         feats = [f for f in feats if f != "std"]
     if not feats:
@@ -128,14 +131,14 @@ def render(inst):
         a("    stale(%d, %d);" % (i, cls))
     if inst.fault:
         a("    fault(%d, %d);" % inst.fault)
+        return render_fault(inst, L)
     held = set(inst.held)
     live0 = inst.reach(held)
     a("    let e0 = execs();")
-    a("    check_safety(%d, %s, true);" % (inst.n, arr(live0)))
     # phase 1
     if inst.script == "collect":
         a("    collect();")
-        a('    kani::assert(execs() == e0 + 1, "C11::executions_count_plus_one_per_collection");')
+        a("    check_execs(e0 + 1);")
     elif inst.script.startswith("release"):
         i = int(inst.script[7:])
         a("    release(%d);" % i)
@@ -173,6 +176,47 @@ def render(inst):
         elif not any(s == "hid" for (_, s, _) in inst.edges):
             a("    check_all_dropped(%d);" % inst.n)
     a('    kani::cover!(true, "l2::end_of_scenario_reached");')
+    a("    finish();")
+    a("}")
+    return "\n".join(L) + "\n"
+
+
+def render_fault(inst, L):
+    """C07: one emulated panic at the k-th callback of the chosen kind during the scripted operation,
+    caught at the API boundary; then the program goes on: the safety oracles must keep holding."""
+    a = L.append
+    held = set(inst.held)
+    live0 = inst.reach(held)
+    a("    let e0 = execs();")
+    if inst.script == "collect":
+        a("    collect();")
+    elif inst.script.startswith("release"):
+        i = int(inst.script[7:])
+        a("    release(%d);" % i)
+        held = held - {i}
+        live0 = inst.reach(held)
+    a("    let c = caught();")
+    a("    disarm();")
+    a("    check_safety(%d, %s, !c);" % (inst.n, arr(live0)))
+    # continuation: let go of some / all handles, collect repeatedly
+    rel = sorted(held) if inst.cont is None else [i for i in inst.cont if i in held]
+    for i in rel:
+        a("    release(%d);" % i)
+    held = held - set(rel)
+    for i in range(inst.n):
+        a("    release_stash(%d);" % i)
+    # ... and a later collection can start (the continuation goes straight on: hidden state left by the
+    # unwound operation must be interpreted safely by whatever comes next)
+    a("    let e1 = execs();")
+    a("    collect();")
+    a("    check_later_collection(e1 + 1);")
+    a("    check_safety(%d, %s, !c);" % (inst.n, arr(inst.reach(held))))
+    for _ in range(inst.n):
+        a("    collect();")
+    a("    check_safety(%d, %s, !c);" % (inst.n, arr(inst.reach(held))))
+    a('    kani::cover!(c, "l2::fault_fired_and_was_caught");')
+    a('    kani::cover!(true, "l2::end_of_scenario_reached");')
+    a("    finish();")
     a("}")
     return "\n".join(L) + "\n"
 
@@ -347,7 +391,41 @@ def weak_family(tier, rng):
     return out
 
 
-FAMILIES = [base_family, history_family, finalizer_family, destructor_family, weak_family]
+def fault_family(tier, rng):
+    """C07: fault kind (1 trace at entry, 4 trace at exit, 2 finalize, 3 drop) x invocation index k"""
+    out = []
+    P7 = ["C07"]
+    scen = [
+        ("two_cycle", 2, NAMED2["two_cycle"], set(), [("release", 0), ("release", 1)], "collect"),
+        ("two_cycle_held", 2, NAMED2["two_cycle"], {0}, [("release", 1), ("touch", 0)], "collect"),
+        ("self_loop_tail", 2, NAMED2["self_loop_tail"], set(), [("release", 0), ("release", 1)], "collect"),
+        ("lasso", 3, NAMED3["lasso"], set(), [("release", 0), ("release", 1), ("release", 2)], "collect"),
+        ("lasso_held", 3, NAMED3["lasso"], {2}, [("release", 0), ("release", 1), ("touch", 2)], "collect"),
+        # the D1 shape: buffer order [B, C, A]: B self-loop and B -> A (live), C unrelated
+        ("bca", 3, [(1, "s0", 1), (1, "s1", 0)], {0, 1, 2}, [("touch", 0), ("touch", 2), ("touch", 1)], "collect"),
+        ("shared_tail", 3, NAMED3["shared_tail"], set(), [("release", 0), ("release", 1), ("release", 2)], "collect"),
+        ("untraced_pin", 3, NAMED3["untraced_pin"], {2}, [("release", 0), ("release", 1), ("touch", 2)], "collect"),
+        ("rc_chain", 2, [(0, "s0", 1)], {0}, [("release", 1)], "release0"),
+        ("rc_single_buffered", 1, [], {0}, [("touch", 0)], "release0"),
+    ]
+    for nm, n, e, held, order, script in scen:
+        kmax = {1: 2 * n + 2, 4: 2 * n + 2, 2: n, 3: n}
+        for kind in (1, 4, 2, 3):
+            if kind in (1, 4) and script != "collect":
+                continue
+            for k in range(1, kmax[kind] + 1):
+                quick = (k <= 2 and nm in ("two_cycle", "bca", "lasso", "rc_chain", "two_cycle_held")) or (k == 3 and nm == "bca" and kind == 1)
+                feats = ["full", "fin"] if kind == 2 else ["full", "std"]
+                out.append(Inst(n, e, held, order, fault=(kind, k), script=script, family="fault%d_%s" % (kind, nm), props=P7,
+                                feats=feats, tier="quick" if quick else "thorough"))
+                if len(held) >= 2:
+                    for h in sorted(held):
+                        out.append(Inst(n, e, held, order, fault=(kind, k), script=script, cont=[h], family="fault%d_%s" % (kind, nm), props=P7,
+                                        feats=feats, tier="quick" if (quick and kind == 1) else "thorough"))
+    return out
+
+
+FAMILIES = [base_family, history_family, finalizer_family, destructor_family, weak_family, fault_family]
 
 
 def generate(pid, tier, seed):
